@@ -742,6 +742,21 @@ class CombinedExpressionSerialization(DeconstructedSerialization):
         2.2
     """
 
+    #: Connectors that are written differently as Python operators.
+    _CONNECTOR_OPERATORS = {
+        '%%': '%',
+        '^': '**',
+    }
+
+    #: Connectors that are only available as methods in Python.
+    _CONNECTOR_METHODS = {
+        '&': 'bitand',
+        '|': 'bitor',
+        '<<': 'bitleftshift',
+        '>>': 'bitrightshift',
+        '#': 'bitxor',
+    }
+
     @classmethod
     def serialize_to_python(cls, value):
         """Serialize a CombinedExpression object to a Python code string.
@@ -754,10 +769,21 @@ class CombinedExpressionSerialization(DeconstructedSerialization):
             unicode:
             The resulting Python code.
         """
+        lhs = cls._serialize_operand(value.lhs)
+        rhs = cls._serialize_operand(value.rhs)
+        connector = value.connector
+
+        # Connectors are spelled the way they go into SQL. Most of them are
+        # valid Python operators as well, but not all of them.
+        method = cls._CONNECTOR_METHODS.get(connector)
+
+        if method:
+            return '%s.%s(%s)' % (lhs, method, rhs)
+
         return '%s %s %s' % (
-            cls._serialize_operand(value.lhs),
-            value.connector,
-            cls._serialize_operand(value.rhs),
+            lhs,
+            cls._CONNECTOR_OPERATORS.get(connector, connector),
+            rhs,
         )
 
     @classmethod
